@@ -28,6 +28,15 @@ mod verif_hooks;
 static EXIT_CODE: AtomicI32 = AtomicI32::new(0);
 #[cfg(feature = "verif-hooks")]
 static EXIT_CODE: verif_hooks::SchedAtomicI32 = verif_hooks::SchedAtomicI32::new(0);
+
+/// Reports an error through the logger. The failure is recorded in the exit code here as well, so that the exit status
+/// does not depend on whether the logger prints the message (it can be silenced through `STYLUA_LOG`)
+macro_rules! error {
+    ($($arg:tt)*) => {{
+        EXIT_CODE.store(2, Ordering::SeqCst);
+        log::error!($($arg)*)
+    }};
+}
 static UNFORMATTED_FILE_COUNT: AtomicU32 = AtomicU32::new(0);
 
 enum FormatResult {
